@@ -21,7 +21,7 @@ RULE = (
     "decoder from betterproto's bytes == integer spec (divmod / sign normalisation) == reference "
     "FromDatetime/FromTimedelta; Timestamp nanos in [0,1e9), Duration same-sign; decode gives the identical "
     "instant / span; to_dict string is RFC 3339 UTC 'Z' / decimal seconds 's' with 0/3/6/9 digits, equals the "
-    "reference ToJsonString up to trailing zeros, is accepted by the reference parser and by from_dict. "
+    "reference ToJsonString up to trailing zeros, is accepted by the reference parser and by from_dict; from_dict gives the identical value for every legal spelling with 0-9 fractional digits. "
     "Non-trivial = not a whole second, or negative, or |us|>2**53, or non-UTC offset."
 )
 ASSUMPTIONS = ["naive datetimes are outside the domain (README documents aware datetimes)",
@@ -170,6 +170,30 @@ def targets(ctx):
                 out.append(("json_offset_input", f"{text!r} -> {v5!r} want {py!r}"))
             elif guard("bytes_offset", bytes, m5) != b:
                 out.append(("json_offset_input", f"{text!r} encodes as {bytes(m5).hex()} want {b.hex()}"))
+
+        # every legal spelling of the same value: the spec accepts any number (0-9) of fractional digits as long as
+        # the value fits nanosecond precision; the value must come back identical whichever one is used
+        whole, frac = divmod(abs(us), 10**6) if kind == "dur" else divmod(us, 10**6)
+        f6 = f"{frac:06d}".rstrip("0")
+        for nd in range(len(f6), 10):
+            if nd == 0:
+                fr = ""
+            else:
+                fr = "." + f6.ljust(nd, "0")
+            if kind == "dur":
+                text = ("-" if us < 0 else "") + f"{whole}{fr}s"
+            else:
+                text = (EPOCH + timedelta(seconds=whole)).strftime("%Y-%m-%dT%H:%M:%S").rjust(19, "0") + fr + "Z"
+            dd = {key: [text] if pos == "repeated" else ({"7": text} if pos == "map" else text)}
+            m6 = guard("from_dict_spelling", cls().from_dict, dd)
+            v6 = getattr(m6, field)
+            if pos == "repeated":
+                v6 = v6[0] if len(v6) == 1 else v6
+            elif pos == "map":
+                v6 = v6.get(7, "missing") if isinstance(v6, dict) else v6
+            if not (isinstance(v6, (datetime, timedelta)) and v6 == py):
+                out.append(("json_alt_spelling", f"{nd} fractional digits: {text!r} -> {v6!r} want {py!r}"))
+                break
 
     def vclass(kind, us, off):
         parts = [kind]
